@@ -80,7 +80,24 @@ def r1_translation(rep, src, tier='quick'):
     rep.saw_func(mt)
     from .. import normalize
     mt_node, _inl = normalize.inline_helpers(mt)       # the match may sit in a private helper
-    modes = {c.func.attr for c in ast.walk(mt_node) if isinstance(c, ast.Call) and isinstance(c.func, ast.Attribute) and c.func.attr in ('match', 'fullmatch', 'search')}
+    def _modes(node_):
+        return {c.func.attr for c in ast.walk(node_) if isinstance(c, ast.Call) and isinstance(c.func, ast.Attribute) and c.func.attr in ('match', 'fullmatch', 'search')}
+    modes = _modes(mt_node)
+    if not modes:
+        # the question is put to the pattern in a method of another class of the module that matches() calls (two levels)
+        todo, seen_ = [mt_node], set()
+        for _lvl in range(2):
+            nxt = []
+            for node_ in todo:
+                for c in ast.walk(node_):
+                    if isinstance(c, ast.Call) and isinstance(c.func, ast.Attribute):
+                        for q_, g_ in mod.funcs.items():
+                            if q_.split('.')[-1] == c.func.attr and q_ not in seen_ and '.' in q_:
+                                seen_.add(q_)
+                                nxt.append(g_.node)
+            for node_ in nxt:
+                modes |= _modes(node_)
+            todo = nxt
     if len(modes) != 1:
         raise AnalysisError('%s: the match call on the pattern is not unique (%s)' % (mt.site, sorted(modes)))
     mode = modes.pop()
@@ -262,12 +279,15 @@ def r2_matches(rep, src):
             hooks['.files_pattern'] = lambda it, args, kw: None
         else:
             hooks['.files_pattern'] = lambda it, args, kw, g=globs: translate(it, [g], {})
+        hooks['__getitem__'] = lambda it, args, kw, g=globs: ' '.join(g or ()) if str(args[1]).lower() == 'files' else it.h.getattr(args[0], args[1], None)
         heap = H.Heap(mod, hooks=hooks)
         heap.symbolic_strings = True
-        me = heap.alloc('FilesParagraph', {'files': globs if globs is not None else ()}, name='@files')
+        me = heap.alloc('FilesParagraph', {'files': globs if globs is not None else (), '_default_re': None}, name='@files')
         what = 'matches(%r) on %s' % (name, label)
+        it2 = H.Interp(heap)
+        _init_plain_stores(it2, src.func(M + ':FilesParagraph.__init__'), me)
         try:
-            r = H.Interp(heap).call(H.Closure(mt.node, {}, me, mt.cls), [name])
+            r = it2.call(H.Closure(mt.node, {}, me, mt.cls), [name])
             out = r
         except H.Raised as x:
             out = 'error' if x.exc.split('.')[-1] == 'MachineReadableFormatError' else 'raises %s' % x.exc
@@ -279,6 +299,18 @@ def r2_matches(rep, src):
         else:
             rep.fail('C16.R2', mt.site, what, 'answers %r for the patterns %r (asked: %r); the answer must be exactly whether one of the patterns covers the whole name'
                      % (out, list(globs) if globs is not None else None, asked), where=mt.where)
+
+
+def _init_plain_stores(it, init, me):
+    """the attributes the constructor sets by plain stores `self.x = <expression>` (a constant, a tuple, a small record of the module), as
+    far as the expression can be evaluated on the scenario's object: the cache starts as the constructor leaves it"""
+    from .. import heap as H
+    for st in init.node.body:
+        if isinstance(st, ast.Assign) and len(st.targets) == 1 and isinstance(st.targets[0], ast.Attribute) and norm(st.targets[0].value) == 'self':
+            try:
+                it.exec(st, {'self': me}, init.cls)
+            except (AnalysisError, H.Raised):
+                pass
 
 
 def r3_cache(rep, src):
@@ -304,13 +336,7 @@ def r3_cache(rep, src):
     it = H.Interp(heap)
     # the cache attributes as the constructor initialises them (only its plain stores into self are interpreted)
     init = src.func(M + ':FilesParagraph.__init__')
-    for st in ast.walk(init.node):
-        if isinstance(st, ast.Assign) and len(st.targets) == 1 and isinstance(st.targets[0], ast.Attribute) and norm(st.targets[0].value) == 'self' \
-                and not any(isinstance(c, ast.Call) for c in ast.walk(st.value)):
-            try:
-                it.exec(st, {'self': me}, 'FilesParagraph')
-            except (AnalysisError, H.Raised):
-                pass
+    _init_plain_stores(it, init, me)
 
     class SelfItems:
         pass
